@@ -482,6 +482,9 @@ func (es *SearchEngineState) MATCHVAR(name string) {
 	} else if value.getType() == ValueHashMapType {
 		// TODO add syntax for indexing hash maps but also I want something a bit better than just failing here
 		es.BACKTRACK()
+	} else if value.String().Value == "" {
+		// a back-reference to an empty capture matches the empty string
+		es.NEXT()
 	} else {
 		es.MATCH(value.String().Value, false, false)
 	}
